@@ -207,3 +207,92 @@ Theorem C02_exclusion_hypotheses_satisfiable :
   valid sub_valid_simple (plain (exclude_names [nm_filter] s_filter_limit)) (JObj [(nm_limit, JInt 0%Z)]) = true.
 Proof. exact exclusion_nonvacuous. Qed.
 Print Assumptions C02_exclusion_hypotheses_satisfiable.
+
+(* ===== Part D: header / cookie negatability from the schema as declared
+         (added after the seeded regression C02_c_string_headers_never_negatable) ===== *)
+
+(* the class the label algebra uses for a header / cookie is PStrOnly exactly when the converted property schema
+   (keyword filter, parameter-level examples, nullable, type file, default type string) is the dict {type: string} *)
+Theorem C02_header_class_bare_iff : forall v2 decl exs,
+  header_class v2 decl exs = PStrOnly <-> header_prop_schema v2 decl exs = bare_string.
+Proof. exact header_class_bare_iff. Qed.
+Print Assumptions C02_header_class_bare_iff.
+
+(* whatever a text value can violate (a declared non-string type, enum, pattern, positive minLength, maxLength, format)
+   is claimed negatable by can_negate_headers: for every declared schema, both dialects, any parameter-level examples *)
+Theorem C02_violable_header_claimed_negatable : forall v2 decl exs,
+  header_value_violable decl = true -> header_class v2 decl exs = POther.
+Proof. exact violable_header_claimed_negatable. Qed.
+Print Assumptions C02_violable_header_claimed_negatable.
+
+(* the direction of the property the seed breaks: an operation one of whose headers (cookies) can be violated by a
+   text value gets negative cases for every value of generation.modes - never Skip, never Reject - the location is
+   drawn from the negative strategy, labelled negative and present; whatever else the operation contains *)
+Theorem C02_violable_header_gets_negative_cases : forall k v2 hs i,
+  is_header_location k = true ->
+  l_params (i_loc k i) = header_params v2 hs ->
+  existsb value_violable_h hs = true ->
+  no_explicit i = true -> draws_fit Neg i = true -> body_serializable i = true ->
+  strategy_of Neg k (i_loc k i) = SNeg /\
+  forall modes, exists lbl, label_case Neg modes i = Case lbl /\
+    comp lbl (ckind_of k) = Some Neg /\ present lbl (ckind_of k) = true.
+Proof. exact violable_header_gets_negative_cases. Qed.
+Print Assumptions C02_violable_header_gets_negative_cases.
+
+Theorem C02_violable_header_hypotheses_satisfiable :
+  (l_params (i_loc LHeader i_mode) = header_params false [hp nm_xmode d_enum true] /\
+   existsb value_violable_h [hp nm_xmode d_enum true] = true /\
+   no_explicit i_mode = true /\ draws_fit Neg i_mode = true /\ body_serializable i_mode = true) /\
+  (l_params (i_loc LCookie i_theme) = header_params false [hp nm_theme d_pattern false] /\
+   existsb value_violable_h [hp nm_theme d_pattern false] = true /\
+   no_explicit i_theme = true /\ draws_fit Neg i_theme = true /\ body_serializable i_theme = true).
+Proof. exact violable_header_nonvacuous. Qed.
+Print Assumptions C02_violable_header_hypotheses_satisfiable.
+
+(* inside the region plain_header the code own predicate and the independent reading coincide *)
+Theorem C02_plain_header_class_iff : forall v2 decl,
+  plain_header v2 decl = true ->
+  (header_class v2 decl [] = PStrOnly <-> header_value_violable decl = false).
+Proof. exact plain_header_class_iff. Qed.
+Print Assumptions C02_plain_header_class_iff.
+
+(* skip iff nothing can be violated, stated with the independent predicate header_violable (omission of a required
+   parameter or a violable value), for operations made of headers and cookies only; region plain_hparam: plain declared
+   schema, no parameter-level example, optional.  Outside the region: F5 (required) and F7 (kept annotation) *)
+Theorem C02_skip_iff_no_violable_header_partial : forall v2 hs cs i,
+  l_params (i_header i) = header_params v2 hs -> l_params (i_cookie i) = header_params v2 cs ->
+  only_headers i = true -> forallb (plain_hparam v2) (hs ++ cs) = true ->
+  no_explicit i = true -> draws_fit Neg i = true -> body_serializable i = true ->
+  (label_case Neg [Neg] i = Skip <-> existsb header_violable (hs ++ cs) = false) /\
+  (forall modes, modes_only_negative modes = false ->
+     (label_case Neg modes i = Reject <-> existsb header_violable (hs ++ cs) = false)) /\
+  (forall modes, existsb header_violable (hs ++ cs) = true -> exists lbl, label_case Neg modes i = Case lbl).
+Proof. exact skip_iff_no_violable_header. Qed.
+Print Assumptions C02_skip_iff_no_violable_header_partial.
+
+Theorem C02_skip_iff_headers_hypotheses_satisfiable :
+  (only_headers i_described = true /\ forallb (plain_hparam false) ([hp nm_xa d_described false] ++ [hp nm_theme d_bare false]) = true /\
+   no_explicit i_described = true /\ draws_fit Neg i_described = true /\ body_serializable i_described = true /\
+   existsb header_violable ([hp nm_xa d_described false] ++ [hp nm_theme d_bare false]) = false /\
+   label_case Neg [Neg] i_described = Skip /\ label_case Neg [Pos; Neg] i_described = Reject) /\
+  (only_headers i_theme = true /\ forallb (plain_hparam false) ([] ++ [hp nm_theme d_pattern false]) = true /\
+   existsb header_violable ([] ++ [hp nm_theme d_pattern false]) = true /\
+   exists lbl, label_case Neg [Neg] i_theme = Case lbl /\ comp lbl CCookies = Some Neg).
+Proof. exact skip_iff_headers_nonvacuous. Qed.
+Print Assumptions C02_skip_iff_headers_hypotheses_satisfiable.
+
+(* finding F7: a string header carrying only an annotation that the converter keeps (example) cannot be violated, yet it
+   is claimed negatable: the negative strategy is chosen, the operation is never a skip, and at the level of the location
+   schema neither negate_constraints nor remove_required_property applies (the run ends in Unsatisfiable) *)
+Theorem C02_skip_iff_no_violable_header_refuted_annotation :
+  header_violable (hp nm_xa d_example false) = false /\
+  header_class false d_example [] = POther /\ header_class true d_example [] = POther /\
+  header_class false d_bare [JStr [120%N]] = POther /\
+  only_headers (i_example DNone) = true /\ no_explicit (i_example DNone) = true /\
+  (forall d, strategy_of Neg LHeader (i_header (i_example d)) = SNeg) /\
+  (forall d, draws_fit Neg (i_example d) = true ->
+     label_case Neg [Neg] (i_example d) <> Skip /\ exists lbl, label_case Neg [Neg] (i_example d) = Case lbl) /\
+  (forall ch, negate_constraints header_ctx false s_example_location ch = None) /\
+  (forall ch, remove_required_property (plain s_example_location) ch = None).
+Proof. exact annotated_header_not_skipped_refuted. Qed.
+Print Assumptions C02_skip_iff_no_violable_header_refuted_annotation.
